@@ -32,7 +32,7 @@ def flat(x):
 
 def main(tier):
     import numpy
-    from barril.units import Array, ChangeScalars, FixedArray, ObtainQuantity, Scalar, UnitDatabase
+    from barril.units import Array, ChangeScalars, FixedArray, GetUnknownQuantity, ObtainQuantity, Scalar, UnitDatabase
     from barril.units.unit_system_manager import UnitSystemManager
 
     rep = common.Report("C02", tier)
@@ -87,6 +87,11 @@ def main(tier):
                         e["exc"] = o[2]
                     events.append(e)
 
+                # a history before the routes: the 'Unknown' quantity type accepts any unit (by design) - asking an unknown-quantity
+                # Scalar for its value in u and v is legal, returns the value unchanged and must not influence later conversions
+                unk = Scalar(ObtainQuantity("<unknown>", "Unknown"), 3.0)      # (built on the database under test)
+                P.outcome(unk.GetValue, v)
+                P.outcome(unk.GetValue, u)
                 ev("Scalar.GetValue(v)", lambda: s.GetValue(v), obj=False, idx=[2])
                 ev("Scalar.CreateCopy(unit=v)", lambda: s.CreateCopy(unit=v), idx=[2])
                 holder = type("Holder", (), {})()
@@ -103,6 +108,13 @@ def main(tier):
                     ev("Array[%s].CreateCopy(unit=v)" % kind, lambda: a.CreateCopy(unit=v), src_kind=kind)
                 tt = [tuple(VALS[:2]), tuple(VALS[2:])]
                 ev("Array[list of tuples].GetValues(v)", lambda: Array(cat, tt, u).GetValues(v), obj=False)
+                ragged = [(VALS[0],), tuple(VALS[1:3]), (VALS[3], VALS[0], VALS[1])]
+                o = P.outcome(lambda: Array(cat, ragged, u).GetValues(v))
+                rows_ok = o[0] == "ok" and [len(r_) for r_ in o[1]] == [1, 2, 3]
+                rref = [ref[0], ref[1], ref[2], ref[3], ref[0], ref[1]]
+                events.append({"op": "Route", "route": "Array[rows of different lengths].GetValues(v)", "u": u, "v": v, "src_category": cat, "src_qtype": qt,
+                               "src_kind": "", "ok": o[0] == "ok", "ppt": ppt_of(flat(o[1]), rref, scale) if o[0] == "ok" and len(flat(o[1])) == 6 else 2 ** 31 - 1,
+                               "len_ok": rows_ok, "category": cat, "qtype": qt, "unit": v, "kind": ""})
                 f = FixedArray(4, cat, list(VALS), u)
                 qv = ObtainQuantity(v, cat)
                 ev("FixedArray.IndexAsScalar(2, q_v)", lambda: f.IndexAsScalar(2, qv), idx=[2])
@@ -131,6 +143,7 @@ def main(tier):
                         events.append({"op": "Route", "route": name, "u": u, "v": v, "src_category": cat, "src_qtype": qt, "src_kind": "", "ok": o[0] == "ok",
                                        "ppt": ppt_of([o[1]], [want], abs(want)) if o[0] == "ok" else 2 ** 31 - 1, "len_ok": True, "category": cat, "qtype": qt,
                                        "unit": v, "kind": "", "exc": o[2] if o[0] != "ok" else ""})
+                ev("Scalar.GetValue(v) again, after all other routes", lambda: s.GetValue(v), obj=False, idx=[2])
                 # own unit: simple and derived
                 d = Scalar(cat, 3.0, u) * Scalar(cat, 2.0, u)
                 da = Array(cat, [3.0, 1.5], u) * Array(cat, [2.0, 2.0], u)
